@@ -85,6 +85,8 @@ AidxProgs ==
                           ser \in {"build", "write_to"}} :
                   lay \in Lays } :
           ks \in KeySizes, ow \in {4, 5, 6} }
+  \cup \* offsets one past the field maximum
+  {AidxProg(16, ow, 2, "prefix", <<"over", "asc">>, "builder") : ow \in {4, 5, 6}}
 
 \* -- archive group ------------------------------------------------------------------
 AGroupPops == Boundary(AGroupP) \cup {3 * AGroupP, 3 * AGroupP + 1, FirstChunkDrift(AGroupRec, ChunkBytes)}
@@ -106,6 +108,8 @@ EncProgs ==
                 \cup {EncProg(1, kb, 1, 3, m, lay, vo, ser) :
                      m \in Boundary(EKeyP(kb)), vo \in VpOrd(lay), ser \in EncSers(lay)} :
           kb \in KBs, lay \in Lays }
+  \cup \* the largest content-key record that fits a page, and the first that does not
+  UNION { {EncProg(kb, 1, nek, 3, 3, "prefix", <<"lo", "asc">>, "raw") : nek \in {MaxNek(kb), MaxNek(kb) + 1}} : kb \in {1, 4} }
 
 \* -- root manifest ---------------------------------------------------------------------
 RootShapes == { <<"dense", 1, "norm", "asc">>, <<"gap", 2, "raw", "rot">>, <<"ends", 2, "norm", "desc">> }
